@@ -154,6 +154,9 @@ func Boom(v interface{}) { panic(v) }
 // BoomStr panics with a host string.
 func BoomStr(s string) { panic(s) }
 
+// Park blocks its caller for ever in the host (a native call that never returns).
+func Park() { select {} }
+
 // Symbols is the export table given to Interpreter.Use.
 var Symbols = map[string]map[string]reflect.Value{
 	"verif/sim/host/host": {
@@ -167,6 +170,7 @@ var Symbols = map[string]map[string]reflect.Value{
 		"NParams": reflect.ValueOf(NParams),
 		"Boom":    reflect.ValueOf(Boom),
 		"BoomStr": reflect.ValueOf(BoomStr),
+		"Park":    reflect.ValueOf(Park),
 		"Pt":      reflect.ValueOf((*Pt)(nil)),
 	},
 }
